@@ -65,6 +65,13 @@ def pool() -> list[dict]:
                      "policy": {"kind": "table", "values": [0.02]}, "worker": {"tasks_limit": 1, "graceful": graceful},
                      "jobs": [_job(0, ["ok"], sleep=0.05), _job(1, ["ok"], sleep=0.0)], "horizon": 8.0, "stop": "signal",
                      "monitor_poll": 0.02})
+    # a long-running actor and a short graceful period: run() must still return within graceful + fixed slack
+    # (crash points are capped to the first 250 loop steps - the later ones are all "actor body still sleeping")
+    for graceful in (0.0, 0.5):
+        base.append({"converter": "basic", "actors": [{"name": "a0", "queue": "q0", "shape": "plain"}],
+                     "policy": {"kind": "table", "values": [0.02]}, "worker": {"tasks_limit": 1, "graceful": graceful},
+                     "jobs": [_job(0, ["ok"], sleep=15.0), _job(1, ["ok"], sleep=0.0)], "horizon": 40.0, "stop": "signal",
+                     "monitor_poll": 0.02, "enum_cap": 250})
     return base
 
 
@@ -99,7 +106,10 @@ def dry_run(base: dict) -> tuple[int, int]:
             loop.add_step_hook(watch)
 
         tr = scenario.run_case(base, hook=hook)
-        _DRY[h] = (marks.get("reg", 1), tr.stop_step or tr.env.loop.steps)
+        lo, hi = marks.get("reg", 1), tr.stop_step or tr.env.loop.steps
+        if base.get("enum_cap"):
+            hi = min(hi, lo + base["enum_cap"])
+        _DRY[h] = (lo, hi)
     return _DRY[h]
 
 
@@ -151,6 +161,8 @@ def check_after_stop(out: Outcome, tr: scenario.Trace, case: dict, stop_t: float
                 if chain_i < len(steps) and steps[chain_i].op != e.op:
                     out.v("wrong-disposition", f"{tag}: delivery {chain_i} expected {steps[chain_i].op}, got {e.op}")
                 chain_i += 1
+            elif e.op == "reject" and e.done and chain_i < len(steps) and steps[chain_i].op == "reject":
+                chain_i += 1  # the actor's own eager reject, not a shutdown hand-back
             if e.done:
                 alts = [new]
                 held = False
@@ -247,6 +259,92 @@ def run_stop(case: dict) -> Outcome:
     out.nontrivial = bool(info.get("held")) and bool(info.get("sent"))
     out.cls("broker-" + case["broker"], "held-at-stop" if info.get("held") else "nothing-held-at-stop",
             f"graceful-{base['worker']['graceful']}", "signal-delivered" if info.get("sent") else "signal-before-handler")
+    return out
+
+
+# ------------------------------------------------------------------------------------------------ random workloads
+
+
+@st.composite
+def random_stop_case(draw, broker):
+    from harness import gen
+
+    case = draw(gen.worker_case(brokers=(broker,), max_jobs=4, tasks_limits=(1, 2, 3), job_kw={"allow_timeout": False}))
+    for j in case["jobs"]:
+        for o in j["attempts"]:
+            if o.get("sleep"):
+                o["sleep"] = round(min(o["sleep"], 2.0) * 0.025, 4)  # millisecond-scale bodies: few loop steps per phase
+        if j.get("defer_by"):
+            j["defer_by"] = 1.0
+    if case["policy"]["kind"] == "table":
+        case["policy"]["values"] = [round(v * 0.02, 3) for v in case["policy"]["values"]]
+    else:
+        case["policy"] = {"kind": "table", "values": [0.02]}
+    case["worker"]["graceful"] = draw(st.sampled_from([0.0, 0.01, 0.05, 0.5]))
+    case["monitor_poll"] = 0.02
+    case["horizon"] = 12.0
+    case["frac"] = draw(st.floats(0.0, 1.0, allow_nan=False))
+    # most loop steps of a workload are idle polling: aim near the steps where something happens (dry-run event steps)
+    case["near_event"] = draw(st.integers(0, 4)) != 0
+    case["delta"] = draw(st.integers(-4, 14))
+    return case
+
+
+def run_random_stop(case: dict) -> Outcome:
+    out = Outcome()
+    base = {k: v for k, v in case.items() if k not in ("frac", "near_event", "delta")}
+    marks: dict = {}
+
+    def dry_hook(trace, worker):
+        loop = trace.env.loop
+
+        def watch(step):
+            if "reg" not in marks and loop.sig_handlers.get(int(signal.SIGTERM)):
+                marks["reg"] = step
+
+        loop.add_step_hook(watch)
+
+    try:
+        d = scenario.run_case(base, hook=dry_hook)
+    except (vclock.StepLimit, vclock.Deadlock) as e:
+        out.inconclusive = True
+        out.info["watchdog"] = str(e)
+        return out
+    lo, hi = marks.get("reg", 1), d.stop_step or d.env.loop.steps
+    k = lo + int(case["frac"] * max(0, hi - lo))
+    if case.get("near_event"):
+        ev_steps = sorted({e.step for e in d.spy.events if lo <= e.step <= hi} | {x.step0 for x in d.execs if lo <= x.step0 <= hi})
+        if ev_steps:
+            k = min(hi, max(lo, ev_steps[min(len(ev_steps) - 1, int(case["frac"] * len(ev_steps)))] + case.get("delta", 0)))
+    info: dict = {}
+
+    def hook(trace, worker):
+        loop = trace.env.loop
+
+        def fire():
+            info["held"] = sorted(i for i, v in trace.env.probe().items() if any(p.kind == "held" for p in v))
+            info["t"] = loop.time()
+            info["sent"] = loop.send_signal(signal.SIGTERM)
+            if info["sent"]:
+                trace.stop_requested_at = loop.time()
+                trace.extra["stop_injected"] = True
+
+        loop.inject_at_step(k, fire)
+
+    try:
+        tr = scenario.run_case(base, hook=hook)
+    except vclock.StepLimit as e:
+        out.v("worker-stuck", f"generated workload with a stop signal at loop step {k} did not finish: {e}")
+        return out
+    except vclock.Deadlock as e:
+        out.inconclusive = True
+        return out
+    check_after_stop(out, tr, base, info.get("t") if info.get("sent") else None)
+    for v in out.violations:
+        v.msg = f"[stop signal at loop step {k} of {lo}..{hi}, t={info.get('t')}] " + v.msg
+    out.nontrivial = bool(info.get("held")) and bool(info.get("sent"))
+    out.cls("broker-" + case["broker"], "held-at-stop" if info.get("held") else "nothing-held-at-stop",
+            f"graceful-{base['worker']['graceful']}")
     return out
 
 
@@ -459,6 +557,9 @@ CHECK = Check(
         SubCheck("stop-mem", lambda: stop_case("mem"), run_stop, quick=25, thorough=0, enumerate_cases=enumerate_stop("mem"), exhaustive=True),
         SubCheck("stop-redis", lambda: stop_case("redis"), run_stop, quick=40, thorough=0, enumerate_cases=enumerate_stop("redis"), exhaustive=True),
         SubCheck("stop-amqp", lambda: stop_case("amqp"), run_stop, quick=40, thorough=0, enumerate_cases=enumerate_stop("amqp"), exhaustive=True),
+        SubCheck("stop-random-mem", lambda: random_stop_case("mem"), run_random_stop, quick=8, thorough=400),
+        SubCheck("stop-random-redis", lambda: random_stop_case("redis"), run_random_stop, quick=10, thorough=500),
+        SubCheck("stop-random-amqp", lambda: random_stop_case("amqp"), run_random_stop, quick=10, thorough=500),
         SubCheck("limit", lambda: st.one_of(limit_case("mem"), limit_case("redis"), limit_case("amqp")), run_limit, quick=12, thorough=300),
         SubCheck("kill-redis", lambda: kill_case("redis"), run_kill, quick=30, thorough=0, enumerate_cases=enumerate_kill("redis"), exhaustive=True),
         SubCheck("kill-amqp", lambda: kill_case("amqp"), run_kill, quick=20, thorough=0, enumerate_cases=enumerate_kill("amqp"), exhaustive=True),
